@@ -8,7 +8,9 @@ from checks import C10 as P
 
 MODULE = "Nice.Props.C09"
 THEOREMS = [f"Nice.Props.C09.{t}" for t in (
-    "C09_rto_bounded", "C09_rto_bounded_init", "C09_backoff_doubles_to_ceiling", "C09_transmit_gives_up", "setStateClosed_reports", "C09_next_clock_finite", "C09_next_clock_le_4000")]
+    "C09_rto_bounded", "C09_rto_bounded_init", "C09_backoff_doubles_to_ceiling", "C09_transmit_gives_up", "setStateClosed_reports", "C09_next_clock_finite", "C09_next_clock_le_4000")] + [
+    f"Nice.Props.C09Window.{t}" for t in ("C09_scaled_buffer_fits_window_field", "C09_empty_buffer_advertises_open_window",
+                                          "C09_closed_test_matches_field")]
 TRUSTED = P.TRUSTED[:3] + [
     "liveness after healing is a tied simulation claim (healing schedules on the real code under a virtual clock), not a theorem",
 ]
